@@ -148,3 +148,111 @@ pub fn instance_flags(unimock: &Unimock) -> InstanceFlags {
         has_delegator: unimock.default_impl_delegator_cell.get().is_some(),
     }
 }
+
+// ---------------------------------------------------------------------------------------------
+// controlled scheduling: yield points before every shared-memory operation
+
+static YIELD_HOOK: once_cell::sync::OnceCell<fn(&'static str)> = once_cell::sync::OnceCell::new();
+
+/// Install the function called at every yield point (once per process). Without it yield points do nothing.
+pub fn set_yield_hook(hook: fn(&'static str)) {
+    let _ = YIELD_HOOK.set(hook);
+}
+
+/// Called immediately before every operation on shared mutable state.
+#[inline]
+pub fn yield_point(tag: &'static str) {
+    if let Some(hook) = YIELD_HOOK.get() {
+        hook(tag)
+    }
+}
+
+pub mod sync {
+    //! Drop-in replacement for `core::sync::atomic::AtomicUsize` that announces every operation.
+    use core::sync::atomic::Ordering;
+
+    pub struct AtomicUsize(core::sync::atomic::AtomicUsize);
+
+    impl AtomicUsize {
+        pub const fn new(value: usize) -> Self {
+            Self(core::sync::atomic::AtomicUsize::new(value))
+        }
+        pub fn load(&self, order: Ordering) -> usize {
+            super::yield_point("atomic.load");
+            self.0.load(order)
+        }
+        pub fn store(&self, value: usize, order: Ordering) {
+            super::yield_point("atomic.store");
+            self.0.store(value, order)
+        }
+        pub fn swap(&self, value: usize, order: Ordering) -> usize {
+            super::yield_point("atomic.swap");
+            self.0.swap(value, order)
+        }
+        pub fn fetch_add(&self, value: usize, order: Ordering) -> usize {
+            super::yield_point("atomic.fetch_add");
+            self.0.fetch_add(value, order)
+        }
+        pub fn fetch_sub(&self, value: usize, order: Ordering) -> usize {
+            super::yield_point("atomic.fetch_sub");
+            self.0.fetch_sub(value, order)
+        }
+        pub fn fetch_max(&self, value: usize, order: Ordering) -> usize {
+            super::yield_point("atomic.fetch_max");
+            self.0.fetch_max(value, order)
+        }
+        pub fn fetch_min(&self, value: usize, order: Ordering) -> usize {
+            super::yield_point("atomic.fetch_min");
+            self.0.fetch_min(value, order)
+        }
+        pub fn compare_exchange(
+            &self,
+            current: usize,
+            new: usize,
+            success: Ordering,
+            failure: Ordering,
+        ) -> Result<usize, usize> {
+            super::yield_point("atomic.compare_exchange");
+            self.0.compare_exchange(current, new, success, failure)
+        }
+        pub fn compare_exchange_weak(
+            &self,
+            current: usize,
+            new: usize,
+            success: Ordering,
+            failure: Ordering,
+        ) -> Result<usize, usize> {
+            super::yield_point("atomic.compare_exchange");
+            self.0.compare_exchange_weak(current, new, success, failure)
+        }
+        pub fn fetch_update<F>(
+            &self,
+            set_order: Ordering,
+            fetch_order: Ordering,
+            mut f: F,
+        ) -> Result<usize, usize>
+        where
+            F: FnMut(usize) -> Option<usize>,
+        {
+            // announced as a load followed by a compare-exchange per attempt, like the std loop
+            let mut prev = self.load(fetch_order);
+            while let Some(next) = f(prev) {
+                match self.compare_exchange_weak(prev, next, set_order, fetch_order) {
+                    x @ Ok(_) => return x,
+                    Err(next_prev) => prev = next_prev,
+                }
+            }
+            Err(prev)
+        }
+        pub fn get_mut(&mut self) -> &mut usize {
+            self.0.get_mut()
+        }
+        pub fn into_inner(self) -> usize {
+            self.0.into_inner()
+        }
+        /// read without announcing (used by the snapshot hook only)
+        pub fn peek(&self) -> usize {
+            self.0.load(Ordering::SeqCst)
+        }
+    }
+}
